@@ -35,10 +35,16 @@ Quantizable(kind, aq) == kind \in {"Linear", "Conv2d"} \/ (kind = "LayerNorm" /\
 QClass(kind) == IF kind = "Linear" THEN "QLinear" ELSE IF kind = "Conv2d" THEN "QConv2d" ELSE "QLayerNorm"
 
 (* ======================== C13: scoping and purity (checked on every event) ======================== *)
+\* Stated without reference to HOW a context hooks itself in (one pre- and one post-hook per entry as built - that count is the
+\* as-built layer and not a verdict): entering may change the registries at will; leaving restores what the matching enter
+\* found (qargs.snaps: stack of the registries seen just before each enter); an exception restores what the outermost enter
+\* found; no other action changes them.
+PrevGlobals == Tr[tid][l - 1].globals
 GlobalsOK(e) ==
-  /\ e.globals.pre_hooks = base.pre_hooks + open'
-  /\ e.globals.post_hooks = base.post_hooks + open'
-  /\ e.globals.modes = base.modes + open'
+  CASE e.act \in {"EnterCalib", "ReEnterCalib"} -> TRUE
+    [] e.act = "ExitCalib" /\ e.outcome = "ok" -> (qargs.snaps # <<>>) /\ e.globals = qargs.snaps[Len(qargs.snaps)]
+    [] e.act = "RaiseIn" -> (qargs.snaps # <<>>) => e.globals = qargs.snaps[1]
+    [] OTHER -> e.globals = PrevGlobals
 ForwardPure(e) ==
   /\ e.state_before = e.state_digest              \* no parameter, buffer, scale or qtype changed
   /\ e.input_unchanged
@@ -274,7 +280,9 @@ DevSig(d, e) ==
     [] d = "Dev_C13_ReentryLeak" ->
          \* an object that was entered twice is being left, and hooks outlive it (mode stack and purity clauses still hold)
          /\ Judge = "C13" /\ e.act \in {"ExitCalib", "RaiseIn"} /\ qargs.re > 0
-         /\ e.globals.modes = base.modes + open' /\ e.globals.pre_hooks > base.pre_hooks + open' /\ e.globals.post_hooks = e.globals.pre_hooks
+         /\ qargs.snaps # <<>>
+         /\ LET want == IF e.act = "RaiseIn" THEN qargs.snaps[1] ELSE qargs.snaps[Len(qargs.snaps)] IN
+              e.globals.modes = want.modes /\ e.globals.pre_hooks > want.pre_hooks /\ e.globals.post_hooks > want.post_hooks
          /\ (e.act = "RaiseIn") => e.raised = TRUE
     [] d = "Dev_C07_IntMMK1" ->
          /\ e.act = "Forward" /\ e.outcome = "ok"
@@ -298,7 +306,7 @@ DevOn == {d \in {"Dev_C13_ReentryLeak", "Dev_C07_IntMMK1", "Dev_C08_LayerNormNoA
               [] d = "Dev_C08_ScaleDtype" -> Dev_C08_ScaleDtype [] d = "Dev_C05_CopyPlain" -> Dev_C05_CopyPlain}
 
 TInit == /\ tid \in 1..Len(Tr) /\ l = 1 /\ dev = {} /\ open = 0
-         /\ base = [pre_hooks |-> 0, post_hooks |-> 0, modes |-> 0] /\ upd = <<>> /\ qargs = [ms |-> <<>>, re |-> 0]
+         /\ base = [pre_hooks |-> 0, post_hooks |-> 0, modes |-> 0] /\ upd = <<>> /\ qargs = [ms |-> <<>>, re |-> 0, snaps |-> <<>>]
 
 TStart == /\ Is("Init") /\ l' = l + 1
           /\ base' = Ev.globals /\ upd' = [i \in 1..Len(Ev.mods) |-> <<0, 0>>]
@@ -310,12 +318,14 @@ TCrash == /\ Is("Crash") /\ FALSE /\ UNCHANGED <<tid, l, dev, open, base, upd, q
 TStep ==
   /\ l <= Len(Tr[tid]) /\ Ev.act \notin {"Init", "Crash", "Grad"}
   /\ open' = OpenAfter(Ev)
-  /\ qargs' = CASE Ev.act = "EnterCalib" /\ Ev.outcome = "ok" -> [qargs EXCEPT !.ms = Append(@, Ev.args.momentum)]
-                 [] Ev.act = "ReEnterCalib" /\ Ev.outcome = "ok" /\ qargs.ms # <<>> -> [ms |-> Append(qargs.ms, qargs.ms[Len(qargs.ms)]), re |-> qargs.re + 1]
+  /\ qargs' = CASE Ev.act = "EnterCalib" /\ Ev.outcome = "ok" -> [qargs EXCEPT !.ms = Append(@, Ev.args.momentum), !.snaps = Append(@, PrevGlobals)]
+                 [] Ev.act = "ReEnterCalib" /\ Ev.outcome = "ok" /\ qargs.ms # <<>> ->
+                      [ms |-> Append(qargs.ms, qargs.ms[Len(qargs.ms)]), re |-> qargs.re + 1, snaps |-> Append(qargs.snaps, PrevGlobals)]
                  [] Ev.act = "ExitCalib" /\ Ev.outcome = "ok" /\ qargs.ms # <<>> ->
                       \* (re-entries sit on top of the entry they repeat: they are left first)
-                      [ms |-> SubSeq(qargs.ms, 1, Len(qargs.ms) - 1), re |-> IF Len(qargs.ms) = 1 THEN 0 ELSE qargs.re]
-                 [] Ev.act = "RaiseIn" -> [ms |-> <<>>, re |-> 0]
+                      [ms |-> SubSeq(qargs.ms, 1, Len(qargs.ms) - 1), re |-> IF Len(qargs.ms) = 1 THEN 0 ELSE qargs.re,
+                       snaps |-> IF qargs.snaps = <<>> THEN <<>> ELSE SubSeq(qargs.snaps, 1, Len(qargs.snaps) - 1)]
+                 [] Ev.act = "RaiseIn" -> [ms |-> <<>>, re |-> 0, snaps |-> <<>>]
                  [] OTHER -> qargs
   /\ \/ (JudgeOK(Ev) = TRUE /\ dev' = dev)
      \/ \E d \in DevOn : ((~JudgeOK(Ev) /\ DevSig(d, Ev)) = TRUE /\ dev' = dev \cup {d})
